@@ -293,6 +293,32 @@ fn evaluation_equivalence(max_jump: i64, specs: &[RuleSpec]) {
 }
 
 /// Fork on whether the zone has a fold (offset going back) so that both cases are separate paths.
+/// C11 (UTC event -> context-zone wall clock, localize.rs event_time): with coordinates, the time of
+/// a sun event is the time of day, in the context zone, of the UTC instant the solar computation
+/// returns for that date — whatever the zone offset, also when the local date differs from the
+/// requested one and for instants before 1970. Symbolic: the UTC instant of each event (sunrise stub:
+/// any second of the date), the zone (one transition). Native replay takes the instant from the real
+/// `sunrise` computation at the same coordinates.
+fn event_time_local(max_jump: i64, y: i32, m: u32, d: u32, lat: f64, lon: f64) {
+    use opening_hours::localization::Coordinates;
+    use opening_hours_syntax::rules::time::TimeEvent as Ev;
+    let z = fresh_zone("z", max_jump);
+    let coords = Coordinates::new(lat, lon).expect("valid coordinates");
+    let loc = TzLocation::new(z).with_coords(coords);
+    let day = date(y, m, d);
+    for ev in [Ev::Dawn, Ev::Sunrise, Ev::Sunset, Ev::Dusk] {
+        let u = axis(coords.event_time(day, ev).naive_utc());
+        let want = u.add(offset_at(&z, u)).mod_const(SECS);
+        let got = secs_of(loc.event_time(day, ev));
+        vrt::check("events: event_time() is the time of day, in the context zone, of the UTC instant of the solar event", got.eq(want));
+    }
+    // without coordinates a zone context keeps the documented default times
+    let plain = TzLocation::new(z);
+    for (ev, h) in [(Ev::Dawn, 6), (Ev::Sunrise, 7), (Ev::Sunset, 19), (Ev::Dusk, 20)] {
+        vrt::check("events: default event times without coordinates", secs_of(plain.event_time(day, ev)).eq(SymInt::Const(h * 3600)));
+    }
+}
+
 fn z_no_fold_known(z: &StubTz) -> bool {
     vrt::decide(z.o1.le(z.o2))
 }
@@ -311,6 +337,13 @@ pub fn templates(thorough: bool) -> Vec<Template> {
     ));
     let mono_jump = if thorough { 65 } else { 12 };
     out.push(Template::new("monotone", format!("TzLocation::datetime is monotone (jump <= {mono_jump} min)"), move || datetime_monotone(mono_jump)));
+    for (id, (y, m, d), (lat, lon)) in [("2024", (2024, 6, 12), (48.85, 2.35)), ("1960", (1960, 3, 10), (-17.5, 178.0)), ("2024b", (2024, 6, 13), (1.9, -157.4))] {
+        out.push(Template::new(
+            format!("event_time_{id}"),
+            format!("TzLocation::event_time with coordinates ({lat}, {lon}) on {y}-{m:02}-{d:02}: any UTC instant of the date for each sun event, zone with one symbolic transition"),
+            move || event_time_local(jump, y, m, d, lat, lon),
+        ));
+    }
     let n = RuleOperator::Normal;
     let small_jump = if thorough { 65 } else { 12 };
     use opening_hours_syntax::rules::time::TimeEvent as Ev;
